@@ -37,12 +37,13 @@ Definition f32_man (w : Z) : Z := w mod 2 ^ 23.
 Definition scale2 (m k : Z) : Q :=
   if 0 <=? k then inject_Z (m * 2 ^ k) else Qmake m (Z.to_pos (2 ^ (- k))).
 
+Definition f32_mag (w : Z) : Q :=
+  let e := f32_exp w in let m := f32_man w in
+  if e =? 0 then scale2 m (-149) else scale2 (2 ^ 23 + m) (e - 150).
+Definition f32_val (w : Z) : Q :=
+  Qred (if f32_sign w =? 0 then f32_mag w else Qopp (f32_mag w)).
 Definition f32_of_bits (w : Z) : option Q :=
-  let s := f32_sign w in let e := f32_exp w in let m := f32_man w in
-  if e =? 255 then None
-  else
-    let mag := if e =? 0 then scale2 m (-149) else scale2 (2 ^ 23 + m) (e - 150) in
-    Some (Qred (if s =? 0 then mag else Qopp mag)).
+  if f32_exp w =? 255 then None else Some (f32_val w).
 
 Definition le_float32 (l : list Z) : option Q :=
   match le_uint32 l with Some w => f32_of_bits w | None => None end.
@@ -167,30 +168,38 @@ Proof.
   - unfold Qeq; simpl. split; intro; lia.
 Qed.
 
+Lemma f32_of_bits_some w v : f32_of_bits w = Some v -> v = f32_val w /\ f32_exp w <> 255%Z.
+Proof.
+  unfold f32_of_bits. destruct (Z.eqb_spec (f32_exp w) 255); intro H; [discriminate|].
+  split; [congruence|assumption].
+Qed.
+
 (* exponent 255 (infinities, NaN) is rejected, everything else has a value *)
 Lemma f32_rejects_inf_nan w : f32_exp w = 255%Z <-> f32_of_bits w = None.
 Proof.
   unfold f32_of_bits. destruct (Z.eqb_spec (f32_exp w) 255); split; intro; try congruence; auto.
 Qed.
 
+Lemma f32_mag_nonneg w : (0 <= w)%Z -> 0 <= f32_mag w.
+Proof.
+  intro Hw. unfold f32_mag.
+  assert (M: (0 <= f32_man w)%Z) by (unfold f32_man; apply Z.mod_pos_bound; lia).
+  destruct (f32_exp w =? 0)%Z; apply scale2_sign; lia.
+Qed.
+
 (* sign bit clear => value >= 0 *)
 Lemma f32_nonneg w v : (0 <= w < 2 ^ 31)%Z -> f32_of_bits w = Some v -> 0 <= v.
 Proof.
-  intros Hw H. unfold f32_of_bits in H.
+  intros Hw H. apply f32_of_bits_some in H as [-> _]. unfold f32_val.
   assert (S0: f32_sign w = 0%Z) by (unfold f32_sign; apply Z.div_small; lia).
-  rewrite S0 in H. cbn [Z.eqb] in H.
-  destruct (f32_exp w =? 255)%Z; [discriminate|]. injection H as <-.
-  rewrite Qred_correct.
-  assert (M: (0 <= f32_man w)%Z) by (unfold f32_man; apply Z.mod_pos_bound; lia).
-  destruct (f32_exp w =? 0)%Z; apply scale2_sign; lia.
+  rewrite S0. cbn [Z.eqb]. rewrite Qred_correct. apply f32_mag_nonneg; lia.
 Qed.
 
 (* the value is 0 exactly for the patterns +0 and -0  (mantissa and exponent all clear) *)
 Lemma f32_zero_iff w v : (0 <= w < 2 ^ 32)%Z -> f32_of_bits w = Some v ->
   (v == 0 <-> (w mod 2 ^ 31 = 0)%Z).
 Proof.
-  intros Hw H. unfold f32_of_bits in H.
-  destruct (f32_exp w =? 255)%Z eqn:E255; [discriminate|]. injection H as <-.
+  intros Hw H. apply f32_of_bits_some in H as [-> _]. unfold f32_val.
   rewrite Qred_correct.
   assert (M: (0 <= f32_man w < 2 ^ 23)%Z) by (unfold f32_man; apply Z.mod_pos_bound; lia).
   assert (D: (w mod 2 ^ 31 = 2 ^ 23 * f32_exp w + f32_man w)%Z).
@@ -201,29 +210,30 @@ Proof.
   { intro q. destruct (f32_sign w =? 0)%Z; [tauto|]. split; intro Hq.
     - rewrite <- (Qopp_involutive q), Hq. reflexivity.
     - rewrite Hq. reflexivity. }
-  rewrite Z0.
+  rewrite Z0. unfold f32_mag.
   destruct (Z.eqb_spec (f32_exp w) 0) as [E0|E0].
   - rewrite scale2_zero_iff. lia.
   - rewrite scale2_zero_iff. lia.
 Qed.
 
 (* flipping the sign bit negates the value *)
-Lemma f32_sign_flip w v : (0 <= w < 2 ^ 31)%Z -> f32_of_bits w = Some v ->
-  exists v', f32_of_bits (w + 2 ^ 31) = Some v' /\ v' == - v.
+Lemma f32_sign_flip w : (0 <= w < 2 ^ 31)%Z -> f32_val (w + 2 ^ 31) == - f32_val w
+  /\ f32_exp (w + 2 ^ 31) = f32_exp w.
 Proof.
-  intros Hw H. unfold f32_of_bits in *.
+  intros Hw.
   assert (S0: f32_sign w = 0%Z) by (unfold f32_sign; apply Z.div_small; lia).
   assert (S1: f32_sign (w + 2 ^ 31) = 1%Z).
   { unfold f32_sign. replace (w + 2 ^ 31)%Z with (w + 1 * 2 ^ 31)%Z by lia.
     rewrite Z.div_add by lia. rewrite Z.div_small; lia. }
   assert (E: f32_exp (w + 2 ^ 31) = f32_exp w).
   { unfold f32_exp. replace (w + 2 ^ 31)%Z with (w + 256 * 2 ^ 23)%Z by lia.
-    rewrite Z.div_add by lia. rewrite Z.add_comm. rewrite Z.mod_add'; lia. }
+    rewrite Z.div_add by lia. replace (w / 2 ^ 23 + 256)%Z with (w / 2 ^ 23 + 1 * 256)%Z by lia.
+    apply Z.mod_add; lia. }
   assert (Mn: f32_man (w + 2 ^ 31) = f32_man w).
   { unfold f32_man. replace (w + 2 ^ 31)%Z with (w + 256 * 2 ^ 23)%Z by lia. apply Z.mod_add; lia. }
-  rewrite S1, E, Mn. rewrite S0 in H. cbn [Z.eqb] in *.
-  destruct (f32_exp w =? 255)%Z; [discriminate|]. injection H as <-.
-  eexists; split; [reflexivity|]. rewrite !Qred_correct. reflexivity.
+  split; [|exact E].
+  unfold f32_val, f32_mag. rewrite S1, S0, E, Mn. cbn [Z.eqb].
+  rewrite !Qred_correct. reflexivity.
 Qed.
 
 (* concrete patterns (struct.pack('<f', x)) *)
